@@ -256,10 +256,12 @@ def splitHash (b : Bytes) : List Bytes :=
       | [] => [[c]]
       | x :: xs => (c :: x) :: xs) [[]]
 
-/-- protobuf varint. -/
-def varint (n : Nat) : Bytes :=
-  if h : n < 128 then [n] else (n % 128 + 128) :: varint (n / 128)
-decreasing_by omega
+/-- protobuf varint (structural on a fuel of 10 groups = 70 bits, enough for any length). -/
+def varintAux : Nat → Nat → Bytes
+  | 0, n => [n % 128]
+  | fuel + 1, n => if n < 128 then [n] else (n % 128 + 128) :: varintAux fuel (n / 128)
+
+def varint (n : Nat) : Bytes := varintAux 10 n
 
 /-- `JoinKey` = `types.Encode(&KeyValue{Key: left, Value: right})` (proto3: empty fields omitted). -/
 def joinKey (l r : Bytes) : Bytes :=
@@ -481,7 +483,124 @@ def joinCfg : Cfg :=
 
 def initJT : JT := ⟨{ cfg := leftCfg }, { cfg := rightCfg }, { cfg := joinCfg }⟩
 
-def leftRow (tx gid addr : Bytes) : Data := .one ⟨tx, [(nGameID, gid), (nAddr, addr)]⟩
-def rightRow (gid status : Bytes) : Data := .one ⟨gid, [(nStatus, status)]⟩
+def leftG (tx gid addr : Bytes) : GRow := ⟨tx, [(nGameID, gid), (nAddr, addr)]⟩
+def rightG (gid status : Bytes) : GRow := ⟨gid, [(nStatus, status)]⟩
+def leftRow (tx gid addr : Bytes) : Data := .one (leftG tx gid addr)
+def rightRow (gid status : Bytes) : Data := .one (rightG gid status)
+
+/-! ### specification side (statements of Props/C10Join.lean) -/
+
+/-- the two tables as maps: txhash ↦ (gameID, addr), gameID ↦ status. -/
+structure JSpec where
+  L : Bytes → Option (Bytes × Bytes)
+  R : Bytes → Option Bytes
+
+/-- the joined row of `tx`: its left row paired with the right row it names (if both exist). -/
+def joined (s : JSpec) (tx : Bytes) : Option Data :=
+  match s.L tx with
+  | some la =>
+    (match s.R la.1 with
+     | some st => some (.pair (leftG tx la.1 la.2) (rightG la.1 st))
+     | none => none)
+  | none => none
+
+/-- the records of primary key `p` of table `c`, seen through `g`, are exactly the encoding of the
+row `v`: the data record (plain tables) and, for every index, one entry under the row's value and
+under no other value. -/
+def RepRow (g : Bytes → Option Val) (c : Cfg) (p : Bytes) (v : Option Data) : Prop :=
+  (c.join = false → g (dataKey c p) = v.map (fun d => Val.row p d)) ∧
+  ∀ n ∈ c.index, ∀ val, g (indexKey c n val p) =
+    (match v with
+     | some d => if c.getF d n = some val then some (Val.pk p) else none
+     | none => none)
+
+/-- the db encodes the two maps and their join (for keys without the '-' separator). -/
+def JRep (db : TDB) (s : JSpec) : Prop :=
+  (∀ tx, C10.NoSep tx → RepRow (get db) leftCfg tx ((s.L tx).map (fun la => leftRow tx la.1 la.2))) ∧
+  (∀ g, C10.NoSep g → RepRow (get db) rightCfg g ((s.R g).map (fun st => rightRow g st))) ∧
+  (∀ tx, C10.NoSep tx → RepRow (get db) joinCfg tx (joined s tx))
+
+/-- every left row names an existing game (what the join needs, join.go header comment). -/
+def Integrity (s : JSpec) : Prop := ∀ tx la, s.L tx = some la → C10.NoSep la.1 ∧ s.R la.1 ≠ none
+
+/-- operations on the left table. -/
+inductive LOp where
+  | add (tx gid addr : Bytes)
+  | replace (tx gid addr : Bytes)
+  | update (tx gid addr : Bytes)
+  | del (tx : Bytes)
+  deriving DecidableEq, Repr
+
+def LOp.tx : LOp → Bytes
+  | .add tx _ _ => tx | .replace tx _ _ => tx | .update tx _ _ => tx | .del tx => tx
+
+def execL (db : TDB) (jt : JT) : LOp → JT × Res
+  | .add tx g a => let (t, r) := add db jt.left (leftRow tx g a); ({ jt with left := t }, r)
+  | .replace tx g a => let (t, r) := replace db jt.left (leftRow tx g a); ({ jt with left := t }, r)
+  | .update tx g a => let (t, r) := update db jt.left tx (leftRow tx g a); ({ jt with left := t }, r)
+  | .del tx => let (t, r) := del db jt.left tx; ({ jt with left := t }, r)
+
+/-- map semantics of a left operation. -/
+def specL (s : JSpec) : LOp → JSpec × Res
+  | .add tx g a => match s.L tx with
+    | some _ => (s, .dup)
+    | none => ({ s with L := fun p => if p = tx then some (g, a) else s.L p }, .ok)
+  | .replace tx g a => ({ s with L := fun p => if p = tx then some (g, a) else s.L p }, .ok)
+  | .update tx g a => match s.L tx with
+    | some _ => ({ s with L := fun p => if p = tx then some (g, a) else s.L p }, .ok)
+    | none => (s, .notfound)
+  | .del tx => match s.L tx with
+    | some _ => ({ s with L := fun p => if p = tx then none else s.L p }, .ok)
+    | none => (s, .notfound)
+
+/-- the hypotheses the findings force on a left operation: a written row names an existing game,
+and rewriting an existing row keeps its foreign key (S-C10d). -/
+def LOpOK (s : JSpec) : LOp → Prop
+  | .add _ g _ => C10.NoSep g ∧ s.R g ≠ none
+  | .replace tx g _ => C10.NoSep g ∧ s.R g ≠ none ∧ ∀ la, s.L tx = some la → la.1 = g
+  | .update tx g _ => C10.NoSep g ∧ s.R g ≠ none ∧ ∀ la, s.L tx = some la → la.1 = g
+  | .del _ => True
+
+/-- operations on the right table. -/
+inductive ROp where
+  | add (g st : Bytes)
+  | replace (g st : Bytes)
+  | update (g st : Bytes)
+  | del (g : Bytes)
+  deriving DecidableEq, Repr
+
+def ROp.g : ROp → Bytes
+  | .add g _ => g | .replace g _ => g | .update g _ => g | .del g => g
+
+def execR (db : TDB) (jt : JT) : ROp → JT × Res
+  | .add g st => let (t, r) := add db jt.right (rightRow g st); ({ jt with right := t }, r)
+  | .replace g st => let (t, r) := replace db jt.right (rightRow g st); ({ jt with right := t }, r)
+  | .update g st => let (t, r) := update db jt.right g (rightRow g st); ({ jt with right := t }, r)
+  | .del g => let (t, r) := del db jt.right g; ({ jt with right := t }, r)
+
+def specR (s : JSpec) : ROp → JSpec × Res
+  | .add g st => match s.R g with
+    | some _ => (s, .dup)
+    | none => ({ s with R := fun p => if p = g then some st else s.R p }, .ok)
+  | .replace g st => ({ s with R := fun p => if p = g then some st else s.R p }, .ok)
+  | .update g st => match s.R g with
+    | some _ => ({ s with R := fun p => if p = g then some st else s.R p }, .ok)
+    | none => (s, .notfound)
+  | .del g => match s.R g with
+    | some _ => ({ s with R := fun p => if p = g then none else s.R p }, .ok)
+    | none => (s, .notfound)
+
+/-- a batch between two saves: right operations, then left operations (the tables are separate
+caches, so the interleaving does not matter). -/
+def runBatch (db : TDB) (jt : JT) (rops : List ROp) (lops : List LOp) : JT :=
+  lops.foldl (fun j op => (execL db j op).1) (rops.foldl (fun j op => (execR db j op).1) jt)
+
+def specBatch (s : JSpec) (rops : List ROp) (lops : List LOp) : JSpec :=
+  lops.foldl (fun x op => (specL x op).1) (rops.foldl (fun x op => (specR x op).1) s)
+
+/-- a right operation keeps referential integrity: a referenced game is not deleted. -/
+def ROpOK (s : JSpec) : ROp → Prop
+  | .del g => ∀ tx la, s.L tx = some la → la.1 ≠ g
+  | _ => True
 
 end C10J
